@@ -61,9 +61,11 @@ META = {
         'abstract bookkeeping that never influences a reply; the events a request causes are not compared with the dispatcher model (abstract function)',
     ],
     'assumptions': [
-        'DispFits (hypothesis of reply_action_fits / error_class_is_secop): positive replies of the dispatcher are well-formed triples that belong '
-        'to the request; its FitsOk half is proved for the dispatcher model.  The whole-line theorems need only DispNoEol, proved for the dispatcher model '
-        'under NodeEventsNoEol (module / parameter names in events contain no newline)',
+        'DispAnswers (hypothesis of reply_action_fits / error_class_is_secop: positive replies carry the reply action and specifier of the request, raised '
+        'SECoP errors a class name of errors.py) and DispNoEol (hypothesis of the whole-line and peer-gone theorems) replace the former DispFits; both are '
+        'proved for the dispatcher model (dispatch_answers, dispatcher_no_newline), so that dispatcher_reply_action_fits and dispatcher_lines_whole assume only, '
+        'of the node, NodeClasses (its errors carry class names of errors.py) and NodeEventsNoEol (module / parameter names in events contain no newline); '
+        'both are checked on the real node by the monitors (error class of every error reply, every sendall one line)',
         'DispNeutral (hypothesis of neutral_lines_removable): proved for the dispatcher model over any NodeIf, i.e. assuming that descriptive data and the '
         'checks of activate / logging are functions of the request alone and that no reply depends on subscriptions; checked on the real node by the '
         'correspondence run (fresh-node tables) and by the independence monitor',
